@@ -90,6 +90,11 @@ class HierDictDocument(DictDocument):
 
             class_name = self.get_class_name(body_class)
             if self.ignore_wrappers:
+                if isinstance(class_name, bytes) and not (class_name in doc):
+                    # the document may as well have str keys (e.g. msgpack
+                    # str type instead of bin type)
+                    class_name = class_name.decode('utf8')
+
                 doc = doc.get(class_name, None)
 
             result_message = self._doc_to_object(ctx, body_class, doc,
